@@ -12,6 +12,12 @@ import re
 NUMS = ['0', '-0', '-1', '-7.5', '1e-40', '1e38', '3e38', '3.5e38', '1e300', '-1e300', '99999999999999999999', '4294967296',
         '2147483648', '65536', '50%', '-50%', '1e40%', '0.0000001', '1e-320', 'NaN', 'inf', '1e', '.', '+', '1e+', '0x10',
         '1 ' * 40, '1,' * 300 + '1', '1e300 ' * 8, '65536 65536', '0 0', '-1 -1', '3e38 3e38 3e38 3e38']
+# non-ASCII material: 2-, 3-, 4-byte characters, combining marks, with separators the parser slices at
+UNI = ['\u00f6', '\u00e9\u00e8', '\u65e5\u672c', '\U0001F600', 'e\u0301', '\u0627\u0644', '\u00f6-x', '\u65e5\u672c-JP', '\U0001F600-\U0001F600', 'x-\u00f6',
+       '\u00f6,\u65e5\u672c-JP', 'en-\u00fc-x', '\u2028', '\u00a0', '\ufeffen', '\u00f6;\u00f6:\u00f6', '#\u00f6', 'url(#\u00f6)', '\u00f6 \u00f6', '\u0301-a']
+STRING_ATTRS = ['systemLanguage', 'requiredFeatures', 'requiredExtensions', 'font-family', 'class', 'id', 'xlink:href', 'href', 'preserveAspectRatio',
+                'style', 'xml:lang', 'lang', 'type', 'in', 'in2', 'result', 'values', 'mode', 'operator', 'text-decoration', 'font-variant', 'unicode-bidi',
+                'transform', 'fill', 'stroke', 'filter', 'clip-path', 'mask', 'marker-start', 'd', 'points', 'viewBox', 'offset', 'writing-mode']
 UNITS = ['', 'px', 'in', 'cm', 'mm', 'pt', 'pc', 'em', 'ex', '%']
 NS = 'xmlns="http://www.w3.org/2000/svg" xmlns:xlink="http://www.w3.org/1999/xlink"'
 
@@ -31,7 +37,22 @@ REF_RE = re.compile(r'(url\(#|href="#)([^)"]+)')
 
 def mutate(rng, text, other):
     """one structure-aware mutation of an SVG text; `other` is another corpus document (for splices)"""
-    kind = rng.below(5)
+    kind = rng.below(6)
+    if kind == 5:                                   # non-ASCII characters in a string-valued attribute (existing or new)
+        ms = [m for m in ATTR_RE.finditer(text) if m.group(1) not in ('xmlns', 'xmlns:xlink')]
+        r = rng.below(3)
+        if ms and r == 0:
+            a = rng.choice(ms)
+            v = a.group(2)
+            cut = rng.below(len(v) + 1)
+            return 'unicode', text[:a.start(2)] + v[:cut] + rng.choice(UNI) + v[cut:] + text[a.end(2):]
+        tags = list(re.finditer(r'<([A-Za-z][A-Za-z0-9]*)\b(?![^<>]*\bsystemLanguage)', text))
+        if tags:
+            t = rng.choice(tags)
+            att = rng.choice(STRING_ATTRS)
+            if att in t.group(0) or re.search(r'^[^<>]*\b%s=' % re.escape(att), text[t.end():t.end() + 400]):
+                att = 'systemLanguage'
+            return 'unicode', text[:t.end()] + ' %s="%s"' % (att, rng.choice(UNI)) + text[t.end():]
     if kind == 0:                                   # attribute value swap
         ms = list(ATTR_RE.finditer(text))
         if len(ms) >= 2:
@@ -81,6 +102,10 @@ def mutate(rng, text, other):
 # ------------------------------------------------------------------------------------------------ grammar
 def value_for(rng, att, ids):
     r = rng.below(10)
+    if att in ('systemLanguage', 'requiredFeatures', 'requiredExtensions', 'lang', 'font-family', 'class') and rng.below(2):
+        return rng.choice(UNI + ['en', 'en-US', 'ru, en', 'de'])
+    if rng.below(25) == 0:
+        return rng.choice(UNI)
     if att in ('id',):
         return 'g%d' % rng.below(8)
     if att in ('href',) or r == 0:
@@ -170,7 +195,8 @@ def grammar_doc(rng, els, ats, size):
 TEXT_CHARS = ['a', 'Text', ' ', '  two  words ', 'x y', '\u00e9\u00e8', '\u4e2d\u6587', '\U0001F600', 'e\u0301', '\u0627\u0644\u0639', 'fi', '\t\n', 'A' * 12, '&amp;', '&#x202e;ab']
 INVISIBLE = ['display="none"', 'transform="scale(0)"', 'transform="matrix(1 2 2 4 0 0)"', 'systemLanguage="de"', 'systemLanguage="en"',
              'systemLanguage="ru, de"', 'requiredExtensions="x"', 'visibility="hidden"', 'visibility="collapse"', 'font-size="0"',
-             'opacity="0"', 'style="display:none"', 'systemLanguage=""']
+             'opacity="0"', 'style="display:none"', 'systemLanguage=""', 'systemLanguage="\u65e5\u672c-JP"', 'systemLanguage="\u00f6-x, en"',
+             'requiredFeatures="\u00f6"', 'xml:lang="\u65e5\u672c"', 'font-family="\u00f6 \u65e5\u672c"']
 
 
 def numlist(rng):
@@ -215,8 +241,27 @@ def text_doc(rng):
 
 
 # ------------------------------------------------------------------------------------------------ nesting / bombs / entities
+def hidden_use_chain(n):
+    """one visible `use` whose expansion nests n deep: the other `use` elements sit below a foreign-namespace element,
+    which the parser skips (they are expanded only through the chain), so the svgtree has ~n nodes, not n^2 / 2.
+    Compact markup: 2500 links fit into the 64 KiB input domain."""
+    def b36(i):
+        d = '0123456789abcdefghijklmnopqrstuvwxyz'
+        r = ''
+        while True:
+            r = d[i % 36] + r
+            i //= 36
+            if i == 0:
+                return 'h' + r
+    chain = ''.join('<use id="%s" href="#%s"/>' % (b36(i), b36(i + 1)) for i in range(2, n + 1))
+    return ('<svg xmlns="http://www.w3.org/2000/svg" xmlns:x="urn:x" width="10" height="10"><x:h>%s<rect id="%s" width="5" height="5"/></x:h>'
+            '<use id="h1" href="#%s"/><rect id="vf_witness" x="70" y="70" width="20" height="20" fill="#010203"/></svg>' % (chain, b36(n + 1), b36(2)))
+
+
 def nesting_docs():
     out = []
+    for n in (100, 400, 511, 512, 1200, 2250):
+        out.append(("hidden use chain x%d" % n, hidden_use_chain(n)))
     for tag, extra in (('g', ''), ('svg', ''), ('a', ''), ('switch', ''), ('g', ' opacity="0.5"'), ('g', ' clip-path="url(#c)"'),
                        ('symbol', ''), ('mask', ''), ('pattern', ' width="1" height="1"'), ('marker', '')):
         for depth in (500, 1020, 1023, 1024, 1025, 1030, 3000):
@@ -313,6 +358,6 @@ def malformed(rng, seeds):
     return out
 
 
-OPTION_SETS = ['-', 'lang=de', 'lang=en', 'dpi=10', 'dpi=72', 'dpi=300', 'dpi=4000', 'dw=1;dh=1', 'dw=10000;dh=3', 'lang=ru,de', 'lang=',
+OPTION_SETS = ['-', 'lang=de', 'lang=en', 'lang=\u65e5\u672c,\u00f6', 'lang=\u00f6-x', 'dpi=10', 'dpi=72', 'dpi=300', 'dpi=4000', 'dw=1;dh=1', 'dw=10000;dh=3', 'lang=ru,de', 'lang=',
                'css=' + '*{stroke-width:1e300;fill:url(#g1)} rect{marker:url(#g2);font:bold 1e40px x}'.encode().hex(),
                'css=' + 'svg{display:none}'.encode().hex(), 'nofonts', 'nofonts;dpi=4000', 'fs=0', 'fs=1e30']
